@@ -1215,4 +1215,148 @@ theorem cinv_pushAll : ∀ (vs : List α) {c : Cyclic α} {n : Nat} {log : List 
       exact ⟨c2, by simp [pushAll, e, e2], by simpa using h2⟩
 
 
+/-! ### ghost accounting for "nothing lost, nothing duplicated" -/
+
+/-- bytes a history step handed TO the ring (accepted by it) -/
+def accepted : Op → Out → List Byte
+  | .putc c, .int v => if v = 1 then [c] else []
+  | .write d, .count n => d.take n
+  | .produce d, _ => d
+  | .produce1 c, _ => [c]
+  | _, _ => []
+
+/-- bytes a history step got OUT of the ring -/
+def delivered : Op → Out → List Byte
+  | .getc, .int v => if v = -1 then [] else [BitVec.ofInt 8 v]
+  | .read _, .bytes d => d
+  | .consume _, .bytes d => d
+  | .consume1, .bytes d => d
+  | _, _ => []
+
+/-- operations that throw stored data away on purpose -/
+def Op.discards : Op → Bool
+  | .moveTail _ => true
+  | .moveTailOne => true
+  | .clean => true
+  | _ => false
+
+def acceptedAll : List Op → List Out → List Byte
+  | op :: ops, o :: os => accepted op o ++ acceptedAll ops os
+  | _, _ => []
+
+def deliveredAll : List Op → List Out → List Byte
+  | op :: ops, o :: os => delivered op o ++ deliveredAll ops os
+  | _, _ => []
+
+theorem spec_step_conserves {cap : Nat} {q q' : List Byte} {op : Op} {o : Out}
+    (hs : specStep cap q op = some (q', o)) (hd : op.discards = false) :
+    q ++ accepted op o = delivered op o ++ q' := by
+  cases op with
+  | putc c =>
+    simp only [specStep] at hs
+    split at hs
+    · obtain ⟨rfl, rfl⟩ : q ++ [c] = q' ∧ Out.int 1 = o := by simpa using hs
+      simp [accepted, delivered]
+    · obtain ⟨rfl, rfl⟩ : q = q' ∧ Out.int 0 = o := by simpa using hs
+      simp [accepted, delivered]
+  | getc =>
+    cases q with
+    | nil =>
+      obtain ⟨rfl, rfl⟩ : [] = q' ∧ Out.int (-1) = o := by simpa [specStep] using hs
+      simp [accepted, delivered]
+    | cons x t =>
+      obtain ⟨rfl, rfl⟩ : t = q' ∧ Out.int x.toNat = o := by simpa [specStep] using hs
+      have : (x.toNat : Int) ≠ -1 := by omega
+      simp [accepted, delivered, this, ofInt8_toNat]
+  | write d =>
+    obtain ⟨rfl, rfl⟩ : q ++ d.take (cap - q.length) = q' ∧
+        Out.count (min d.length (cap - q.length)) = o := by simpa [specStep] using hs
+    simp only [accepted, delivered, List.nil_append, List.append_cancel_left_eq]
+    rw [List.take_eq_take_iff]; omega
+  | read n =>
+    obtain ⟨rfl, rfl⟩ : q.drop n = q' ∧ Out.bytes (q.take n) = o := by simpa [specStep] using hs
+    simp [accepted, delivered]
+  | produce d =>
+    simp only [specStep] at hs
+    split at hs
+    · obtain ⟨rfl, rfl⟩ : q ++ d = q' ∧ Out.unit = o := by simpa using hs
+      simp [accepted, delivered]
+    · simp at hs
+  | produce1 c =>
+    simp only [specStep] at hs
+    split at hs
+    · obtain ⟨rfl, rfl⟩ : q ++ [c] = q' ∧ Out.unit = o := by simpa using hs
+      simp [accepted, delivered]
+    · simp at hs
+  | consume n =>
+    simp only [specStep] at hs
+    split at hs
+    · obtain ⟨rfl, rfl⟩ : q.drop n = q' ∧ Out.bytes (q.take n) = o := by simpa using hs
+      simp [accepted, delivered]
+    · simp at hs
+  | consume1 =>
+    cases q with
+    | nil => simp [specStep] at hs
+    | cons x t =>
+      obtain ⟨rfl, rfl⟩ : t = q' ∧ Out.bytes [x] = o := by simpa [specStep] using hs
+      simp [accepted, delivered]
+  | moveHead n => simp [specStep] at hs
+  | moveHeadOne => simp [specStep] at hs
+  | moveTail n => simp [Op.discards] at hd
+  | moveTailOne => simp [Op.discards] at hd
+  | clean => simp [Op.discards] at hd
+
+theorem spec_run_conserves {cap : Nat} : ∀ (ops : List Op) {q q' : List Byte} {outs : List Out},
+    runSpec cap q ops = some (q', outs) → (∀ op ∈ ops, op.discards = false) →
+    q ++ acceptedAll ops outs = deliveredAll ops outs ++ q'
+  | [], q, q', outs, h, _ => by
+      obtain ⟨rfl, rfl⟩ : q = q' ∧ [] = outs := by simpa [runSpec] using h
+      simp [acceptedAll, deliveredAll]
+  | op :: ops, q, q', outs, h, hd => by
+      simp only [runSpec] at h
+      split at h
+      · simp at h
+      · rename_i q1 o e
+        split at h
+        · simp at h
+        · rename_i q2 os e2
+          obtain ⟨rfl, rfl⟩ : q2 = q' ∧ o :: os = outs := by simpa using h
+          have h1 := spec_step_conserves e (hd op (by simp))
+          have h2 := spec_run_conserves ops e2 (fun op' hop => hd op' (by simp [hop]))
+          simp only [acceptedAll, deliveredAll]
+          rw [← List.append_assoc, h1, List.append_assoc, h2, List.append_assoc]
+
+/-- a whole history refines the reference FIFO -/
+theorem run_refines : ∀ (ops : List Op) {r : RingHead} {buf q q' : List Byte} {outs : List Out},
+    Abs r buf q → r.size.toNat ≤ 2 ^ 31 →
+    runSpec (r.size.toNat - 1) q ops = some (q', outs) →
+    ∃ r' buf', runRing r buf ops = some (r', buf', outs) ∧ r'.size = r.size ∧ Abs r' buf' q'
+  | [], r, buf, q, q', outs, h, _, hs => by
+      obtain ⟨rfl, rfl⟩ : q = q' ∧ [] = outs := by simpa [runSpec] using hs
+      exact ⟨r, buf, rfl, rfl, h⟩
+  | op :: ops, r, buf, q, q', outs, h, hS, hs => by
+      simp only [runSpec] at hs
+      split at hs
+      · simp at hs
+      · rename_i q1 o e
+        split at hs
+        · simp at hs
+        · rename_i q2 os e2
+          obtain ⟨rfl, rfl⟩ : q2 = q' ∧ o :: os = outs := by simpa using hs
+          obtain ⟨r1, b1, e1, hsz, h1⟩ := step_refines h hS op e
+          rw [← hsz] at e2 hS
+          obtain ⟨r2, b2, e3, hsz2, h2⟩ := run_refines ops h1 hS e2
+          exact ⟨r2, b2, by simp [runRing, e1, e3], hsz2.trans hsz, h2⟩
+
+/-- a whole history, ANY operations with ANY arguments: no fault, invariant kept -/
+theorem run_keeps : ∀ (ops : List Op) {r : RingHead} {buf : List Byte}, r.WF →
+    r.size.toNat ≤ buf.length →
+    ∃ r' buf' outs, runRing r buf ops = some (r', buf', outs) ∧ Keeps r buf r' buf' ∧
+      outs.length = ops.length
+  | [], r, buf, h, _ => ⟨r, buf, [], rfl, Keeps.refl h, rfl⟩
+  | op :: ops, r, buf, h, hb => by
+      obtain ⟨r1, b1, o, e1, k1⟩ := step_keeps h hb op
+      obtain ⟨r2, b2, os, e2, k2, hl⟩ := run_keeps ops k1.1 (by rw [k1.2.1, k1.2.2]; exact hb)
+      exact ⟨r2, b2, o :: os, by simp [runRing, e1, e2], k1.trans k2, by simp [hl]⟩
+
 end Igris.C03
